@@ -172,6 +172,8 @@ pub fn scenario(p: &GenParams) -> BoxedStrategy<Scenario> {
             sc.vals = [4u8, 4, 4, 4, 2, 6, 4, 1][(seed >> 57) as usize % 8];
             // a quarter of the games keep their snapshots themselves (cells get a checksum but no data)
             sc.own_snapshots = (seed >> 50) % 4 == 0;
+            // a third of the games sample their controller per tick: a stalled frame is resubmitted with other values
+            sc.resubmit_varies = (seed >> 44) % 3 == 0;
             // ops
             let mut outages = 0;
             let mut pauses = 0;
